@@ -264,7 +264,7 @@ func Input(l *InputSharedVars, g *GlobalVarsMain, hPath *HFilePath, driConfig *C
 								g.WNOR[LTindex] = g.W[LTindex]
 
 								if L == 1 {
-									calcWRed(g.WMIN[LTindex], g.W[LTindex], g)
+									calcWRed(g.WMIN[LTindex]*100, g.W[LTindex]*100, g)
 								}
 							}
 						}
@@ -1202,7 +1202,8 @@ func Hydro(horizon int, g *GlobalVarsMain, local *InputSharedVars, hPath *HFileP
 
 			g.WUMAX[horizonIndex] = ValAsFloat(wa[31:33], hyparName, wa)
 			if horizon == 1 {
-				calcWRed(g.LIM[horizonIndex]*100, local.FK[horizonIndex]*100, g)
+				// same stone correction as the wilting point and field capacity the layer gets
+				calcWRed(g.LIM[horizonIndex]*100*(1-g.STEIN[horizonIndex]), local.FK[horizonIndex]*100*(1-g.STEIN[horizonIndex]), g)
 			}
 			break
 		}
